@@ -57,7 +57,11 @@ struct ClientRig
   std::shared_ptr<WebSocketClient> make()
   {
     auto cl = WebSocketClient::create();
-    cl->setOnTextMessage([this](const std::string &t) { ev.msg(1, 't', t.data(), t.size()); });
+    std::weak_ptr<WebSocketClient> weak = cl; // HR-11: callbacks capture the client weakly
+    cl->setOnTextMessage([this, weak](const std::string &t) {
+      ev.msg(1, 't', t.data(), t.size());
+      if (t == "vf-app-close") { if (auto c = weak.lock()) c->sendClose(1000, "bye"); }
+    });
     cl->setOnBinaryMessage([this](const std::vector<std::uint8_t> &b) { ev.msg(1, 'b', b.data(), b.size()); });
     cl->setOnClose([this](std::uint16_t code, const std::string &reason) { ev.close(1, code, reason); });
     cl->setOnError([this](const std::string &w) { ev.err(1, w); });
